@@ -165,9 +165,9 @@ prop("C06", level="other",
 prop("C07", level="other",
      level_text="Mixed. PROVED: MultipleRuleApplier.assert_applies evaluates ALL rules, fails iff some rule is violated, collects exactly the messages of the violated rules and never turns an "
                 "erroring rule into a verdict (loop invariant with exceptional outcomes, any iteration order); ModulePrefixer.prefix / _add_prefix_to_module: with_base_module(p) == writing every "
-                "component as p.name (string view). BOUNDED: DependencyToRuleConverter (builds Rule objects through the fluent API inside comprehensions) and the end-to-end conformance claim: the real DiagramRule outcome is compared with the conformance predicate of the property on random component relations and perturbed import graphs, both "
+                "component as p.name (string view). DependencyToRuleConverter._generate_rule: the rule for a component with arrows has exactly subject a, verb should_only / should by mode, direction import, objects = the drawn targets. BOUNDED: the converter's lists of rules (Rule records inside lists) and the end-to-end conformance claim: the real DiagramRule outcome is compared with the conformance predicate of the property on random component relations and perturbed import graphs, both "
                 "modes; aggregated messages are checked to contain every violated forbidden pair.",
-     level_note=_BND_NOTE, technique=_BND_TECH, explanation="diagram rule conformance", roots=["MultipleRuleApplier.assert_applies", "ModulePrefixer.prefix", "ModulePrefixer._add_prefix_to_module"], bounded=[_b("diagrams", "bounded_diagram_rule")], trusted_base=_TB)
+     level_note=_BND_NOTE, technique=_BND_TECH, explanation="diagram rule conformance", roots=["MultipleRuleApplier.assert_applies", "ModulePrefixer.prefix", "ModulePrefixer._add_prefix_to_module", "DependencyToRuleConverter._generate_rule"], bounded=[_b("diagrams", "bounded_diagram_rule")], trusted_base=_TB)
 prop("C17", level="other",
      level_text="Mixed. PROVED (string view, all strings, any number of aliases): NetworkxGraph._create_label returns the alias of the LONGEST aliased module that equals the module or is a dotted "
                 "ancestor of it, followed by the rest of the name, and the full name when none applies (label_ok); _create_plot_labels_with_alias labels exactly the graph's nodes, each with "
